@@ -15,41 +15,10 @@ Property theorems about `Model/TcpFraming.lean` (the model of `tcp_stream.rs`):
   the delivered list is a prefix of the list of messages that were framed.
 -/
 import HickoryVerif.Model.TcpFraming
+import HickoryVerif.Spec.Framing
 
 namespace HickoryVerif.C17
 open HickoryVerif HickoryVerif.TcpFraming
-
-/-! ## specification vocabulary -/
-
-/-- a message on the wire: two-byte big-endian length, then the message -/
-def frame (m : Bytes) : Bytes := [m.length / 256, m.length % 256] ++ m
-
-def frames : List Bytes → Bytes
-  | [] => []
-  | m :: ms => frame m ++ frames ms
-
-/-- a message that can be framed: non-empty and at most 65535 bytes -/
-def Framable (m : Bytes) : Prop := m ≠ [] ∧ m.length < 65536
-
-/-- how the peer's byte stream ends -/
-inductive Ending where
-  /-- the peer closed -/
-  | eof
-  /-- the socket failed -/
-  | err
-  /-- nothing more arrives, the connection stays open -/
-  | open
-  deriving Repr, DecidableEq
-
-/-- how the consumer's view of the stream ends -/
-inductive Terminal where
-  /-- `Ready(None)` -/
-  | clean
-  /-- `Ready(Some(Err))` -/
-  | error
-  /-- `Pending` for ever -/
-  | blocked
-  deriving Repr, DecidableEq
 
 /-- the bytes a read script carries before the close / the failure -/
 def bytesOf : List REv → Bytes
